@@ -219,11 +219,19 @@ example : [Op.moveTo ⟨0, 0⟩, .lineTo ⟨-2, 0⟩, .lineTo ⟨-5, 0⟩].foldl
 /-- The hypotheses of `builder_strict_partial` are also satisfied by the dot-product direction test. -/
 example : Sane fixedGeo ∧ MergeSound fixedGeo := ⟨fixedGeo_sane, fixedGeo_mergeSound⟩
 
-/-- `Append` (and the raw branch of `Join`) of a receiver that ends in a MoveTo yields two consecutive
-MoveTos: well-formed, but not strictly so. -/
-theorem append_after_moveTo_not_strict :
-    ∃ p q : RPath Int, Strict goGeo.ptEq p ∧ Strict goGeo.ptEq q ∧ WF goGeo.ptEq (append p q) ∧
-      ¬ Strict goGeo.ptEq (append p q) :=
+/-- `Append` preserves STRICT well-formedness: a trailing MoveTo of the receiver is dropped before
+the argument (which starts with its own MoveTo) is copied, so no two consecutive MoveTos arise. -/
+theorem append_strict (near : Pt α → Pt α → Bool) (p q : RPath α) (hp : Strict near p) (hq : Strict near q) :
+    Strict near (append p q) :=
+  Option.isSome_iff_exists.2
+    (append_ok_strict near (Option.isSome_iff_exists.1 hp) (Option.isSome_iff_exists.1 hq))
+
+/-- `Join` still copies the argument verbatim when it falls back to appending (p closed, or q does not
+start at p's end): a receiver that ends in a MoveTo then yields two consecutive MoveTos — well-formed,
+but not strictly so (exact arithmetic, formulas of path.go). -/
+theorem join_after_moveTo_not_strict :
+    ∃ p q : RPath Int, Strict goGeo.ptEq p ∧ Strict goGeo.ptEq q ∧ WF goGeo.ptEq (join goGeo p q) ∧
+      ¬ Strict goGeo.ptEq (join goGeo p q) :=
   ⟨[.move ⟨5, 5⟩, .line ⟨1, 1⟩, .move ⟨0, 0⟩], [.line ⟨3, 3⟩, .move ⟨2, 2⟩], by unfold Strict; decide,
     by unfold Strict; decide, by unfold WF; decide, by unfold Strict; decide⟩
 
@@ -278,17 +286,26 @@ theorem pos_requested (G : Geo α) (cs : RPath α) (o : Op α) (e : Pt α) (ht :
   | close => simp [Op.target] at ht
   | optimizeClose => simp [Op.target] at ht
 
-/-- WITNESS of known finding C10-moveto-close-forgets-pen: `Close` directly after `MoveTo` removes the
-MoveTo, so path and pen are exactly what they were before the MoveTo — the next drawing call
-continues the older subpath. -/
+/-- `Close` directly after `MoveTo` on top of an OPEN subpath is a no-op: the MoveTo stays and the pen
+stays at its point, so the next drawing call starts a new subpath there (repaired behaviour,
+/repo 60bb9c2). -/
+theorem close_after_moveTo_keeps_pen (G : Geo α) (p : Pt α) (c : Cmd α) (rest : RPath α)
+    (hc : c.isDraw = true) :
+    close G (moveTo p (c :: rest)) = .move p :: c :: rest ∧ pos G (close G (moveTo p (c :: rest))) = p := by
+  cases c <;> simp [Cmd.isDraw] at hc <;> simp [moveTo, close, headIsClose, pos, Cmd.endp]
+
+/-- WITNESS of the remaining part of known finding C10-moveto-close-forgets-pen: on an empty path or
+after a closed subpath, `Close` directly after `MoveTo` still removes the MoveTo, so path and pen are
+exactly what they were before the MoveTo. -/
 theorem close_after_moveTo_forgets (G : Geo α) (p : Pt α) (cs : RPath α)
-    (h : ∀ q rest, cs ≠ .move q :: rest) : close G (moveTo p cs) = cs := by
-  cases cs with
-  | nil => rfl
-  | cons c rest =>
-    cases c with
-    | move q => exact absurd rfl (h q rest)
-    | _ => rfl
+    (h : cs = [] ∨ headIsClose cs = true) : close G (moveTo p cs) = cs := by
+  rcases h with rfl | h
+  · rfl
+  · cases cs with
+    | nil => rfl
+    | cons c rest =>
+      cases c <;> simp [headIsClose] at h
+      simp [moveTo, close, headIsClose]
 
 /-! ## 5. Arc records -/
 
